@@ -217,6 +217,8 @@ def einsum(spec, *ops):
         return nd.dot(ops[0], ops[1])
     if spec in ('ij,ij->i',) and len(ops) == 2:
         A, Bb = nd._raw(ops[0]), nd._raw(ops[1])
+        if A.shape != Bb.shape:
+            raise ValueError('operands could not be broadcast together')
         return nd.array([nd._psum([nd._scalar(x) * nd._scalar(y) for x, y in zip(ra, rb)]) for ra, rb in zip(A, Bb)])
     if spec in ('ij,j->i', 'ij,j') and len(ops) == 2:
         return nd.dot(ops[0], ops[1])
@@ -230,6 +232,8 @@ def trapz(y, x=None, dx=1):
     if x is None:
         return nd._psum([(Y[i] + Y[i + 1]) * Fr(dx) / 2 for i in range(len(Y) - 1)])
     X = nd._flat(x)
+    if len(X) != len(Y):
+        raise ValueError('operands could not be broadcast together')
     return nd._psum([(X[i + 1] - X[i]) * (Y[i] + Y[i + 1]) / 2 for i in range(len(Y) - 1)])
 
 
